@@ -148,6 +148,16 @@ def main(mod, argv=None):
     if changed and tier == "quick" and os.environ.get("VERIF_NO_ESCALATE") != "1":
         gen_tier = getattr(mod, "ESCALATED_TIER", "thorough")
     cases = list(mod.cases(rng, gen_tier))
+    if gen_tier != tier and not hasattr(mod, "ESCALATED_TIER"):
+        # keep an escalated quick run within a few times the quick budget: the corpus / structured head of the
+        # thorough stream is kept, the rest is sub-sampled (deterministically) to 3x the size of the quick stream
+        nq = len(list(mod.cases(random.Random(seed * 1000003 + 17), "quick")))
+        cap = max(3 * nq, 20000)
+        if len(cases) > cap:
+            head, rest = cases[:500], cases[500:]
+            pick = sorted(random.Random(seed + 99).sample(range(len(rest)), cap - len(head)))
+            cases = head + [rest[i] for i in pick]
+            gen_tier = f"thorough-subsampled-to-{cap}"
     results = run_python_all(mod, cases, args.procs)
     harness_errors = [(i, r) for i, r in enumerate(results) if "harness_error" in r]
     model = C.LeanModel()
